@@ -486,6 +486,14 @@ def contains(container, x, facts=None):
         return z3.Select(container.dom, key_term(container.k, x))
     if isinstance(container, SSet):
         return z3.Select(container.dom, key_term(container.k, x))
+    if type(container).__name__ == "ARange":
+        # x in arange(start, stop, 1):  x = start + k for some integer k >= 0 and x < stop
+        def _is_int(v):
+            return isinstance(v, int) or (isinstance(v, z3.ArithRef) and v.is_int())
+        if _is_int(x) and _is_int(container.start):
+            return z3.And(I(x) >= I(container.start), real(x) < real(container.stop))
+        xs, st, sp = real(x), real(container.start), real(container.stop)
+        return z3.And(xs >= st, xs < sp, z3.IsInt(xs - st))
     if isinstance(container, SList):
         i = z3.FreshConst(z3.IntSort(), "i")
         return z3.Exists([i], z3.And(0 <= i, i < container.n, B(values_equal(slist_get(container, i), x))))
